@@ -83,10 +83,14 @@ static std::string legacy_stream_op(int kind, uint32_t cisn, uint32_t sisn, uint
     if (!st->client_payload().empty() || !st->server_payload().empty()) return "data delivered although the first bytes of the stream never arrived";
     if (kind == 0) c.reset(new TCPStream(*st));
     else if (kind == 1) { c.reset(open(1234)); *c = *st; }
-    else if (kind == 2) { c.reset(open(1234)); feed(*c, true, 30, 40); feed(*c, false, 30, 35); feed(*c, false, 16, 18); *c = *st; }      // the target holds segments of its own
+    else if (kind == 2) { c.reset(open(1234)); feed(*c, true, 30, 40); feed(*c, false, 30, 35); feed(*c, false, 16, 18);
+        if (x & 16) { std::unique_ptr<TCPStream> none(open(1234)); *c = *none; if (x & 32) { feed(*c, true, 30, 40); feed(*c, false, 16, 18); } }      // first assigned from a stream that holds nothing: the target's own segments must go (and only once)
+        *c = *st; }      // the target holds segments of its own
     else { TCPStream& self = *st; *st = self; c.reset(new TCPStream(*st)); }
     TCPStream* both[2] = { st.get(), c.get() };
-    for (int i = 0; i < 2; ++i) { TCPStream& t = *both[(i + x) % 2]; feed(t, true, 20, 25); feed(t, true, 0, 10); feed(t, false, 15, 20); feed(t, true, 30, 40); feed(t, false, 0, 5); }
+    for (int i = 0; i < 2; ++i) { TCPStream& t = *both[(i + x) % 2];
+        if (x & 64) { feed(t, true, 0, 10); feed(t, true, 20, 40); }      // an in-order segment that covers a held one completely: the held copy must be released
+        feed(t, true, 20, 25); feed(t, true, 0, 10); feed(t, false, 15, 20); feed(t, true, 30, 40); feed(t, false, 0, 5); }
     for (int i = 0; i < 2; ++i) { const char* who = i ? "copy" : "original";
         if (both[i]->client_payload() != C) return std::string("client payload of the ") + who + fmt(" holds %zu bytes / differs from the 40 sent", both[i]->client_payload().size());
         if (both[i]->server_payload() != S) return std::string("server payload of the ") + who + fmt(" holds %zu bytes / differs from the 40 sent", both[i]->server_payload().size()); }
